@@ -100,6 +100,9 @@ func (c *Conn) Write(p []byte) (int, error) {
 }
 
 func (c *Conn) Close() error {
+	if vs.Active() && !vs.Aborting() {
+		vs.Point("net.Close "+c.Name, unsafe.Pointer(c.wr))
+	}
 	if c.closed {
 		return errors.New("use of closed network connection")
 	}
@@ -116,6 +119,9 @@ func (c *Conn) Close() error {
 
 // CloseWrite half-closes the connection.
 func (c *Conn) CloseWrite() error {
+	if vs.Active() && !vs.Aborting() {
+		vs.Point("net.CloseWrite "+c.Name, unsafe.Pointer(c.wr))
+	}
 	c.wr.wclosed = true
 	vs.Event("net.CloseWrite", unsafe.Pointer(c.wr), false, true)
 	return nil
